@@ -28,7 +28,9 @@ pub const H0: u64 = 10;
 pub const T0: u64 = 1000;
 pub const DT: u64 = 5;
 pub const DEFAULT_TIMEOUT: u64 = 100;
-pub const REMOTE_RCPT: &str = "remote-rcpt";
+/// remote address named by every transfer: mixed case on purpose (it cannot be validated locally and
+/// must be carried verbatim)
+pub const REMOTE_RCPT: &str = "Remote1RCPT-0xAbCdEF";
 pub const U64MAX: u128 = u64::MAX as u128;
 
 /// actors: users A, B; governance G, later governance G2; stranger X
@@ -410,6 +412,8 @@ pub struct Cfg {
     pub admin_targets: Vec<u8>,
     pub migrate_limits: Vec<Option<u64>>,
     pub hmax: u64,
+    /// chain-level (wasm, migration) admin of the ics20 contract, an actor that is NOT governance
+    pub wasm_admin: Option<u8>,
     /// users that may send bank coins (1 at a time, of any bank token they hold) straight to the contract
     pub donors: Vec<u8>,
     /// leave `total_sent` out of the state key (see `Key::hash`)
@@ -452,6 +456,7 @@ impl Cfg {
             admin_targets: vec![],
             migrate_limits: vec![],
             hmax: H0,
+            wasm_admin: None,
             donors: vec![],
             mask_total_sent: true,
         }
@@ -981,6 +986,37 @@ impl Ics20Model {
         }
     }
 
+    /// C18: a cw20 token that is listed or covered by a default must stay redeemable / refundable:
+    /// when the channel balance covers `amount` of `denom` = "cw20:<Ti>", the step has to issue a payout
+    /// sub-call to Ti (whose gas limit `check_gas` then compares). One-directional: nothing is demanded
+    /// for unlisted tokens without default, for amounts above the balance, or for other denominations.
+    fn check_redeemable(&self, r: &Ref, pre: &Obs, ch: u8, denom: &str, amount: u128, what: &str, out: &TxOut, v: &mut Vec<Violation>) {
+        let Some(addr) = denom.strip_prefix("cw20:") else { return };
+        let Some(t) = (0..self.cfg.tokens).find(|t| tok_addr(*t) == addr) else { return };
+        let covered = r.allow.contains_key(&t) || r.default.is_some();
+        if !covered || amount == 0 || amount > pre.chan_bal(ch, denom) {
+            return;
+        }
+        let ics = ics();
+        let issued = out.dispatched.iter().any(|d| {
+            d.sender == ics && matches!(&d.msg, CosmosMsg::Wasm(WasmMsg::Execute { contract_addr, .. }) if contract_addr == addr)
+        });
+        if !issued {
+            v.push(Violation::new(
+                "C18.covered_token_stays_redeemable",
+                format!(
+                    "{what} of {amount} T{} on {} (channel balance {}, allow list {:?}, default {:?}): no payout sub-call was issued ({})",
+                    t + 1,
+                    local_chan(ch),
+                    pre.chan_bal(ch, denom),
+                    r.allow,
+                    r.default,
+                    if out.ok() { format!("result {:?}", out.res.as_ref().ok().and_then(|b| b.as_ref().map(|b| String::from_utf8_lossy(b.as_slice()).to_string()))) } else { out.err() }
+                ),
+            ));
+        }
+    }
+
     /// C18: every payout / refund sub-message carries the token's limit, else the default; native none
     fn check_gas(&self, r: &Ref, out: &TxOut, v: &mut Vec<Violation>) {
         let ics = ics();
@@ -1352,6 +1388,9 @@ impl Model for Ics20Model {
                 }
                 migrated = false;
             }
+        }
+        if let Some(m) = cfg.wasm_admin {
+            w.set_wasm_admin(&ics, Some(&actor(m)));
         }
         driver::normalise_outbox(&mut w);
         let obs = self.observe(&w, None);
@@ -1758,6 +1797,9 @@ impl Model for Ics20Model {
                 }
                 if p.c18 {
                     self.check_gas(&s.r, &out, &mut v);
+                    if let (Some(Den::Proper(Base::Tok(Tok::Cw20(_)))), Some(b)) = (den, base.as_deref()) {
+                        self.check_redeemable(&s.r, pre, ch, b, amt, "incoming voucher", &out, &mut v);
+                    }
                 }
             }
             Act::Ack { .. } | Act::Timeout { .. } => {
@@ -1790,6 +1832,11 @@ impl Model for Ics20Model {
                 driver::normalise_outbox(&mut w);
                 post = self.observe(&w, Some((&s.w, pre)));
                 ok = out.ok();
+                if p.c18 && matches!(kind, None | Some(AckKind::Error)) {
+                    if let Some(b) = &body {
+                        self.check_redeemable(&s.r, pre, ch, &b.denom, b.amount.u128(), "refund (error ack / timeout)", &out, &mut v);
+                    }
+                }
                 if !ok {
                     if post != *pre {
                         v.push(Violation::new("kernel.refused_call_changed_state", pre.diff(&post)));
